@@ -136,6 +136,37 @@ pub fn items() -> Vec<Item> {
         v.push(Item::Rename(p.clone(), nm("renamed.example.net"), nm("example.com"), true));
         v.push(Item::Rename(p.clone(), nm("z"), nm("b.a"), false));
     }
+    // calls that fail late (after part of the work was done) followed by calls sharing their names:
+    // state left behind by an aborted call is the classic way purity breaks
+    {
+        let ex = nm("example.com");
+        let mut m = base_msg(&ex, T_A, true);
+        m.an.push(a_rec(&ex, 1, [1, 2, 3, 4]));
+        m.an.push(name_rec(&nm("www.example.com"), T_CNAME, 1, &nm("mail.example.com")));
+        m.ns.push(soa_rec(&ex, 1, &nm("ns.example.com"), &nm("admin.example.com")));
+        m.ar.push(mx_rec(&ex, 1, 1, &nm("mail.example.com")));
+        // a 252-byte target ending in example.net: the question still fits, www.<target> does not
+        let mut long = name_of_wire_len(252 - 13);
+        long.pop();
+        long.extend_from_slice(&nm("example.net"));
+        for strat in [Strategy::Max, Strategy::Plain] {
+            let p = encode(&m, strat);
+            v.push(Item::Rename(p.clone(), long.clone(), ex.clone(), true));
+            v.push(Item::Rename(p.clone(), nm("renamed.example.net"), ex.clone(), true));
+            v.push(Item::Rename(p.clone(), nm("example.net"), ex.clone(), true));
+            v.push(Item::Compress(encode(&m, Strategy::Plain)));
+            let mut cut = p.clone();
+            let l = cut.len();
+            cut.truncate(l - 3); // parse / uncompress / rename fail at the last record
+            v.push(Item::Parse(cut.clone()));
+            v.push(Item::Uncompress(cut.clone()));
+            v.push(Item::Rename(cut, nm("example.net"), ex.clone(), true));
+        }
+        let mut renamed = base_msg(&nm("renamed.example.net"), T_A, true);
+        renamed.an.push(name_rec(&nm("www.renamed.example.net"), T_CNAME, 1, &nm("mail.example.net")));
+        v.push(Item::Compress(encode(&renamed, Strategy::Plain)));
+        v.push(Item::Rename(encode(&renamed, Strategy::Max), nm("example.com"), nm("example.net"), true));
+    }
     for t in ["x. 60 IN A 1.2.3.4", "a.b. 1 IN MX 10 mail.a.b.", "a. 1 IN SOA ns.a. admin.a. ( 1 2 3 4 5 )", "x. 0 IN TXT \"hello\\032world\"", "x. 1 IN DS 1 2 3 abcd", "x. 1 IN AAAA 2001:db8::1", "x. 1 IN NS", "", "x. 4294967296 IN A 1.2.3.4", "b.a 5 in cname c.b.a"] {
         v.push(Item::FromString(t.to_string()));
     }
